@@ -705,24 +705,49 @@ func (t *etree) count() int {
 	return n
 }
 
+func (t *etree) ids() []string {
+	if t.kids == nil {
+		return []string{strconv.Itoa(t.leaf)}
+	}
+	var out []string
+	for _, k := range t.kids {
+		out = append(out, k.ids()...)
+	}
+	return out
+}
+
 func errorsCase(e *emitter, t *etree, brk int) {
 	e.emit("errors\t"+t.enc()+"\t"+strconv.Itoa(brk), guard(func() string {
 		err := t.build()
-		var ys []string
-		seen := 0
-		for x := range cfgerrors.All(err) {
-			seen++
-			l, ok := x.(*leafErr)
-			if !ok {
-				ys = append(ys, "?")
-			} else {
-				ys = append(ys, strconv.Itoa(l.id))
+		// one iterator value, ranged over several times: an iter.Seq is re-usable, and what one pass
+		// did (in particular leaving it early) must not show in the next
+		seq := cfgerrors.All(err)
+		pass := func(brk int) []string {
+			var ys []string
+			seen := 0
+			for x := range seq {
+				seen++
+				l, ok := x.(*leafErr)
+				if !ok {
+					ys = append(ys, "?")
+				} else {
+					ys = append(ys, strconv.Itoa(l.id))
+				}
+				if brk != 0 && seen >= brk {
+					break
+				}
 			}
-			if brk != 0 && seen >= brk {
-				break
+			return ys
+		}
+		ys := pass(brk)
+		out := strings.Join(ys, " ") + "|0|" + strconv.Itoa(t.count())
+		want := strings.Join(t.ids(), " ")
+		for k := 2; k <= 3; k++ {
+			if got := strings.Join(pass(0), " "); got != want {
+				return out + " PASS-" + strconv.Itoa(k) + "-OVER-THE-SAME-ITERATOR-DIFFERS got=[" + got + "] want=[" + want + "]"
 			}
 		}
-		return strings.Join(ys, " ") + "|0|" + strconv.Itoa(t.count())
+		return out
 	}))
 }
 
